@@ -13,6 +13,7 @@ import Mathlib.Algebra.BigOperators.Group.Finset.Basic
 import Mathlib.Algebra.BigOperators.Ring.Finset
 import Mathlib.Algebra.BigOperators.Intervals
 import Mathlib.Analysis.Real.Sqrt
+import Mathlib.Algebra.Order.BigOperators.Ring.Finset
 
 namespace OdlModel.Prox
 variable {K : Type} [Field K] [LinearOrder K] [IsStrictOrderedRing K]
@@ -192,6 +193,175 @@ theorem simplex_go_inv (r : K) (hr : 0 ≤ r) (xs : List K) :
         · right; exact h
 
 end SimplexFold
+
+/-! ## group (point-wise 2-norm) proximals on power spaces: weighted Cauchy–Schwarz with `sqrt`
+as a parameter, and the entries of the executed `.l1l2` / `.huberG` / `.ccl1l2` (round 4) -/
+section Group
+open Finset
+
+/-- Weighted Cauchy-Schwarz with the norms given as non-negative roots. -/
+theorem group_cs {ι : Type} (I : Finset ι) (pw a b : ι → K) (ra rb : K)
+    (hpw : ∀ k ∈ I, 0 ≤ pw k) (hra : 0 ≤ ra) (hrb : 0 ≤ rb)
+    (ha : ∑ k ∈ I, pw k * (a k * a k) = ra * ra) (hb : ∑ k ∈ I, pw k * (b k * b k) = rb * rb) :
+    ∑ k ∈ I, pw k * (a k * b k) ≤ ra * rb := by
+  have h := Finset.sum_sq_le_sum_mul_sum_of_sq_le_mul I
+    (r := fun k => pw k * (a k * b k)) (f := fun k => pw k * (a k * a k))
+    (g := fun k => pw k * (b k * b k))
+    (fun k hk => mul_nonneg (hpw k hk) (mul_self_nonneg _))
+    (fun k hk => mul_nonneg (hpw k hk) (mul_self_nonneg _))
+    (fun k _ => le_of_eq (by ring))
+  rw [ha, hb] at h
+  have h2 : (∑ k ∈ I, pw k * (a k * b k)) ^ 2 ≤ (ra * rb) ^ 2 := by
+    calc _ ≤ ra * ra * (rb * rb) := h
+      _ = (ra * rb) ^ 2 := by ring
+  exact le_trans (le_abs_self _) (abs_le_of_sq_le_sq h2 (mul_nonneg hra hrb))
+
+/-- Root of a radially scaled group. -/
+theorem group_scale {ι : Type} (I : Finset ι) (pw a : ι → K) (ra th : K)
+    (ha : ∑ k ∈ I, pw k * (a k * a k) = ra * ra) :
+    ∑ k ∈ I, pw k * ((th * a k) * (th * a k)) = (th * ra) * (th * ra) := by
+  have : ∀ k ∈ I, pw k * ((th * a k) * (th * a k)) = th * th * (pw k * (a k * a k)) := by
+    intro k _; ring
+  rw [Finset.sum_congr rfl this, ← Finset.mul_sum, ha]; ring
+
+/-- Radial shrinkage `p = κ x` of one group, `0 ≤ κ ≤ 1`: the cross term is bounded by the
+scalar cross term of the norms (Cauchy-Schwarz). -/
+theorem group_radial {ι : Type} (I : Finset ι) (pw x z : ι → K) (rd re ka : K)
+    (hpw : ∀ k ∈ I, 0 ≤ pw k) (hrd : 0 ≤ rd) (hre : 0 ≤ re) (hk1 : ka ≤ 1)
+    (hd : ∑ k ∈ I, pw k * (x k * x k) = rd * rd)
+    (he : ∑ k ∈ I, pw k * (z k * z k) = re * re) :
+    ∑ k ∈ I, pw k * ((x k - ka * x k) * (z k - ka * x k)) ≤ (rd - ka * rd) * (re - ka * rd) := by
+  have hcs := group_cs I pw x z rd re hpw hrd hre hd he
+  have hsum : ∑ k ∈ I, pw k * ((x k - ka * x k) * (z k - ka * x k))
+      = (1 - ka) * (∑ k ∈ I, pw k * (x k * z k)) - (1 - ka) * ka * (rd * rd) := by
+    rw [← hd, Finset.mul_sum, Finset.mul_sum, ← Finset.sum_sub_distrib]
+    exact Finset.sum_congr rfl (fun k _ => by ring)
+  rw [hsum]
+  have : (1 - ka) * (∑ k ∈ I, pw k * (x k * z k)) ≤ (1 - ka) * (rd * re) :=
+    mul_le_mul_of_nonneg_left hcs (by linarith)
+  nlinarith [this]
+
+/-- The factor of `ProximalHuber._call` on a product space. -/
+theorem huber_kappa (gam s rd : K) (hg : 0 ≤ gam) (hs : 0 < s) (hrd : 0 ≤ rd) :
+    ∃ ka, 0 ≤ ka ∧ ka ≤ 1 ∧ huberCode gam s rd = ka * rd ∧
+      ∀ v : K, (if rd ≤ gam + s then gam / (gam + s) * v else v - s * (v / rd)) = ka * v := by
+  have hgs : 0 < gam + s := by positivity
+  by_cases h : rd ≤ gam + s
+  · refine ⟨gam / (gam + s), by positivity, ?_, ?_, ?_⟩
+    · rw [div_le_one hgs]; linarith
+    · unfold huberCode; rw [absK_eq, abs_of_nonneg hrd, if_pos h]
+    · intro v; rw [if_pos h]
+  · have hpos : 0 < rd := by linarith [not_le.mp h]
+    refine ⟨1 - s / rd, ?_, ?_, ?_, ?_⟩
+    · rw [sub_nonneg, div_le_one hpos]; linarith [not_le.mp h]
+    · have : 0 ≤ s / rd := by positivity
+      linarith
+    · unfold huberCode; rw [absK_eq, abs_of_nonneg hrd, if_neg h]; field_simp
+    · intro v; rw [if_neg h]; field_simp
+
+omit [LinearOrder K] [IsStrictOrderedRing K] in
+theorem list_range_map_sum (d : ℕ) (f : ℕ → K) :
+    ((List.range d).map f).sum = ∑ k ∈ range d, f k := by
+  induction d with
+  | zero => simp
+  | succ n ih => rw [List.range_succ, List.map_append, List.sum_append, ih,
+      Finset.sum_range_succ]; simp
+
+omit [LinearOrder K] [IsStrictOrderedRing K] in
+/-- Entry `i` of the executed `pwNorm`. -/
+theorem pwNorm_getD (sqrt : K → K) (pw : List K) (d m : ℕ) (y : List K) (i : ℕ) (dflt : K)
+    (hi : i < m) :
+    (pwNorm sqrt pw d m y).getD i dflt
+      = sqrt (∑ k ∈ range d, pw.getD k 1 * (y.getD (k * m + i) 0 * y.getD (k * m + i) 0)) := by
+  unfold pwNorm
+  simp only [List.getD_eq_getElem?_getD, List.getElem?_map, List.getElem?_range hi,
+    Option.map_some, Option.getD_some, sumK_eq_sum, list_range_map_sum]
+
+theorem idx_lt {d m k i : ℕ} (hk : k < d) (hi : i < m) : k * m + i < d * m := by
+  calc k * m + i < k * m + m := by omega
+    _ = (k + 1) * m := by ring
+    _ ≤ d * m := Nat.mul_le_mul_right m hk
+
+theorem idx_mod {m k i : ℕ} (hi : i < m) : (k * m + i) % m = i := by
+  rw [Nat.mul_comm, Nat.mul_add_mod, Nat.mod_eq_of_lt hi]
+
+/-- From the group variational inequality to the objective with quadratic gap. -/
+theorem group_lift {ι : Type} (I : Finset ι) (pw x p z : ι → K) (s Ap Az : K) (hs : 0 < s)
+    (h : s * Ap + ∑ k ∈ I, pw k * ((x k - p k) * (z k - p k)) ≤ s * Az) :
+    Ap + (∑ k ∈ I, pw k * ((p k - x k) ^ 2 + (z k - p k) ^ 2)) / (2 * s)
+      ≤ Az + (∑ k ∈ I, pw k * (z k - x k) ^ 2) / (2 * s) := by
+  have e : ∑ k ∈ I, pw k * (z k - x k) ^ 2
+      = ∑ k ∈ I, pw k * ((p k - x k) ^ 2 + (z k - p k) ^ 2)
+        - 2 * ∑ k ∈ I, pw k * ((x k - p k) * (z k - p k)) := by
+    rw [Finset.mul_sum, ← Finset.sum_sub_distrib]
+    exact Finset.sum_congr rfl (fun k _ => by ring)
+  rw [e, sub_div, mul_div_mul_left _ _ (two_ne_zero)]
+  have : (∑ k ∈ I, pw k * ((x k - p k) * (z k - p k))) / s ≤ Az - Ap := by
+    rw [div_le_iff₀ hs]; linarith
+  linarith
+
+/-- Entries of the executed `.l1l2` proximal. -/
+theorem l1l2_getD (E : Env K) (pw : List K) (d m : ℕ) (lam s : K) (g : Option (List K))
+    (w x : List K) (hd : 0 < d) (hx : x.length = d * m) (k i : ℕ) (hk : k < d) (hi : i < m) :
+    (Fn.prox E (.l1l2 pw d lam g) w (.sc s) x).getD (k * m + i) 0
+      = x.getD (k * m + i) 0 - (x.getD (k * m + i) 0 - gAt g (k * m + i))
+        / maxK (E.sqrt (∑ k' ∈ range d, pw.getD k' 1 *
+            ((x.getD (k' * m + i) 0 - gAt g (k' * m + i))
+              * (x.getD (k' * m + i) 0 - gAt g (k' * m + i)))) / (s * lam)) 1 := by
+  have hm : x.length / d = m := by rw [hx]; exact Nat.mul_div_cancel_left m hd
+  have hj := idx_lt (m := m) hk hi
+  simp only [Fn.prox, hm, Sig.scalar]
+  rw [idxMap_getD _ _ _ _ (by rw [hx]; exact hj), idx_mod hi]
+  have hden : ∀ (l : List K) (f : K → K), i < l.length → (l.map f).getD i 1 = f (l.getD i 0) := by
+    intro l f h; simp [List.getD_eq_getElem?_getD, h]
+  rw [hden _ _ (by simp [pwNorm]; exact hi), pwNorm_getD _ _ _ _ _ _ _ hi]
+  have hdiff : ∀ k' ∈ range d, (idxMap x fun i xi => xi - gAt g i).getD (k' * m + i) 0
+      = x.getD (k' * m + i) 0 - gAt g (k' * m + i) := by
+    intro k' hk'
+    have hj' := idx_lt (m := m) (mem_range.mp hk') hi
+    rw [idxMap_getD _ _ _ _ (by rw [hx]; exact hj')]
+  rw [Finset.sum_congr rfl (fun k' hk' => by rw [hdiff k' hk'])]
+
+/-- Entries of the executed `.huberG` proximal. -/
+theorem huberG_getD (E : Env K) (pw : List K) (d m : ℕ) (gam s : K)
+    (w x : List K) (hd : 0 < d) (hx : x.length = d * m) (k i : ℕ) (hk : k < d) (hi : i < m) :
+    (Fn.prox E (.huberG pw d gam) w (.sc s) x).getD (k * m + i) 0
+      = if E.sqrt (∑ k' ∈ range d, pw.getD k' 1 *
+            (x.getD (k' * m + i) 0 * x.getD (k' * m + i) 0)) ≤ gam + s
+        then gam / (gam + s) * x.getD (k * m + i) 0
+        else x.getD (k * m + i) 0 - s * (x.getD (k * m + i) 0 /
+          E.sqrt (∑ k' ∈ range d, pw.getD k' 1 *
+            (x.getD (k' * m + i) 0 * x.getD (k' * m + i) 0))) := by
+  have hm : x.length / d = m := by rw [hx]; exact Nat.mul_div_cancel_left m hd
+  have hj := idx_lt (m := m) hk hi
+  simp only [Fn.prox, hm, Sig.scalar]
+  rw [idxMap_getD _ _ _ _ (by rw [hx]; exact hj), idx_mod hi, pwNorm_getD _ _ _ _ _ _ _ hi]
+
+/-- Entries of the executed `.ccl1l2` proximal. -/
+theorem ccl1l2_getD (E : Env K) (pw : List K) (d m : ℕ) (lam s : K) (g : Option (List K))
+    (w x : List K) (hd : 0 < d) (hx : x.length = d * m) (k i : ℕ) (hk : k < d) (hi : i < m) :
+    (Fn.prox E (.ccl1l2 pw d lam g) w (.sc s) x).getD (k * m + i) 0
+      = (x.getD (k * m + i) 0 - s * gAt g (k * m + i))
+        / (maxK (E.sqrt (∑ k' ∈ range d, pw.getD k' 1 *
+            ((x.getD (k' * m + i) 0 - s * gAt g (k' * m + i))
+              * (x.getD (k' * m + i) 0 - s * gAt g (k' * m + i))))) lam / lam) := by
+  have hm : x.length / d = m := by rw [hx]; exact Nat.mul_div_cancel_left m hd
+  have hj := idx_lt (m := m) hk hi
+  simp only [Fn.prox, hm, Sig.scalar]
+  have hdl : (idxMap x fun i xi => xi - s * gAt g i).length = d * m := by
+    rw [idxMap_length, hx]
+  rw [idxMap_getD _ _ _ _ (by rw [hdl]; exact hj), idx_mod hi]
+  have hden : ∀ (l : List K) (f : K → K), i < l.length → (l.map f).getD i 1 = f (l.getD i 0) := by
+    intro l f h; simp [List.getD_eq_getElem?_getD, h]
+  rw [hden _ _ (by simp [pwNorm]; exact hi), pwNorm_getD _ _ _ _ _ _ _ hi]
+  have hdiff : ∀ k' < d, (idxMap x fun i xi => xi - s * gAt g i).getD (k' * m + i) 0
+      = x.getD (k' * m + i) 0 - s * gAt g (k' * m + i) := by
+    intro k' hk'
+    have hj' := idx_lt (m := m) hk' hi
+    rw [idxMap_getD _ _ _ _ (by rw [hx]; exact hj')]
+  rw [Finset.sum_congr rfl (fun k' hk' => by rw [hdiff k' (mem_range.mp hk')]), hdiff k hk]
+
+end Group
 
 /-! ## the abstract layer: functionals on a real inner product space -/
 section Abstract
